@@ -701,6 +701,52 @@ def _terms(e):
     return [e]
 
 
+def rule_h_at_the_evaluated_point(eng, rep, rule="C03-5b.stored-objective-adds-h-at-the-point-that-was-evaluated"):
+    """soln.obj = sum(resid^2) + h(soln.x), where soln.x is the point objfun saw: the clipped / projected point.  Every Model method that stores an objective value
+    therefore has to hand h the same exact in-box value that is handed to objfun (frame interpreter, exactness facts of C01-6), not `xbase + x` with the unclipped
+    relative position: the two differ whenever a step was clipped (perturbed growing steps, Dykstra overshoot) and then obj disagrees with resid and x.
+    Judged without internal scaling (un-scaling after the clamp is the recorded limitation F01b of C01)."""
+    from .. import frames
+    from .c01 import required_facts
+    n = 0
+    seen = set()
+    # the Model methods that store an objective value (own body writes objval / objsave); a helper they call is judged in their context
+    storing = set()
+    for m in eng.prog.cls("Model").methods.values():
+        for nd in eng.prog.own_nodes(m):
+            tg = nd.targets if isinstance(nd, ast.Assign) else ([nd.target] if isinstance(nd, ast.AugAssign) else [])
+            for t in tg:
+                r = t
+                while isinstance(r, ast.Subscript):
+                    r = r.value
+                if isinstance(r, ast.Attribute) and r.attr in ("objval", "objsave"):
+                    storing.add(m.fid)
+    for cfg in frames.CONFIGS:
+        if not cfg.h or cfg.scaling:
+            continue
+        it = frames.analyse(eng, cfg)
+        for idx, (role, fi, node, x) in enumerate(it.sink_obs):
+            if role != "h":
+                continue
+            stack = it.sink_stacks[idx] if idx < len(it.sink_stacks) else (fi.fid,)
+            if not any(f in storing for f in stack):
+                continue
+            n += 1
+            site = eng.where(fi, node)
+            have = required_facts(cfg) <= set(x.ex)
+            if have:
+                rep.ok(rule, site + " [%r]" % cfg, "h is evaluated at a value whose last operation is the clamp / projection that objfun's argument went through")
+            else:
+                why = x.why or "value was never clamped against the user's bounds"
+                key = "%s|h-at-unclipped-point" % fi.fid
+                if key in seen:
+                    continue
+                seen.add(key)
+                rep.bad(rule, site, key, "the objective stored by %s adds h at a point that is not the evaluated one (%s): objfun saw the clipped / projected point, "
+                        "so soln.obj != sum(resid^2) + h(x) whenever a step was clipped" % (fi.qualname, why))
+    rep.require_count(rule, "h call sites in Model methods (over the regulariser configurations)", n, 3)
+
+
 def run(eng, rep):
     rep.explain("C03: role provenance on the value-flow graph (T4) for the evaluation-number and sample-count plumbing (two roles solved together, "
                 "blame = edge where a value that cannot reach a producer of the role enters plumbing otherwise fed by it); at every "
@@ -717,6 +763,7 @@ def run(eng, rep):
     rep.guarded(rule_extra_samples_same_slot, eng, rep)
     rep.guarded(rule_tuple_coherence, eng, rep, A)
     rep.guarded(rule_objective_construction, eng, rep, A)
+    rep.guarded(rule_h_at_the_evaluated_point, eng, rep)
     rep.guarded(rule_exits_select, eng, rep, rule="C03-7.all-exits-go-through-final-selection")
     vfg = eng.vfg
     ci, b = final_ctor(eng, A)
